@@ -190,7 +190,8 @@ def check_case(case, seed, entity_mode="random", options_override=None, want_num
                 A = candidates[int(np.argmin(errs))]
                 if fminus is not None:
                     kr.setdefault("codes", []).append({"sigma": sigma, "facets": [int(ent), int(fminus)], "matching_code": int(np.argmin(errs)),
-                                                       "codes_within_tol": [i for i, x in enumerate(errs) if x <= tol]})
+                                                       "codes_within_tol": [i for i, x in enumerate(errs) if x <= tol],
+                                                       "codes_by_convention": convention_codes(cells, con, ent, fminus, len(errs))})
                 worst = max(worst, err)
                 if err > tol:
                     kr.update(status="mismatch", entity=ent, error=err, observed=[complex(x) if sc is complex else float(x) for x in A[:12]],
@@ -339,6 +340,37 @@ def main():
     pickle.dump(res, open(sys.argv[2], "wb"))
 
 
+
+
+def convention_codes(cells, con, ent, fminus, ncodes):
+    """the permutation codes of the '-' side that ufcx.h's convention (code = 2*rotations + reflections, the points of the
+    reference facet rotated `rotations` times and then reflected) assigns to this pair of numberings: the codes under
+    which generic points of the reference facet, seen from '-', land on the physical points '+' sees with code 0.
+    Computed from the geometry alone (permuted_facet_points is this harness's own reading of the convention)."""
+    try:
+        cn = cells[0].cellname
+        tdim = cells[0].tdim
+        if tdim < 2:
+            return None
+        ftype = oracle.facet_type(cn, ent).name
+        pts = np.array([[0.125, 0.25], [0.5, 0.125], [0.25, 0.5625]])[:, : tdim - 1] if tdim == 3 else np.array([[0.125], [0.6875]])
+        op, ap = oracle.facet_embedding(cn, ent)
+        om, am = oracle.facet_embedding(cn, fminus)
+        xp = np.array([cells[0].at(op + ap @ q)[0] for q in pts])
+        saved = permuted_facet_points.simplex
+        permuted_facet_points.simplex = (ftype == "triangle")
+        good = []
+        try:
+            for code in range(ncodes):
+                qm = permuted_facet_points(pts, code)
+                xm = np.array([cells[1].at(om + am @ q)[0] for q in qm])
+                if np.max(np.abs(xm - xp)) < 1e-9:
+                    good.append(code)
+        finally:
+            permuted_facet_points.simplex = saved
+        return good
+    except Exception:  # noqa: BLE001
+        return None
 
 
 def permuted_facet_points(pts, code):
